@@ -186,11 +186,39 @@ def run_tree_orders(c):
     return out
 
 
+# inner snapshots (managed on their own) with a pending update inside an element that the outer snapshot replaces or deletes with fix
+NESTED_CORPUS = [
+    "from inline_snapshot import snapshot\n\n\ndef test_a():\n    assert {'name': 'tmp', 'mode': (420, 2)} == snapshot({'name': 'tmp', 'mode': [snapshot(0o644), 2]})\n",
+    "from inline_snapshot import snapshot\n\n\ndef test_a():\n    assert [1, 3] == snapshot([1, [snapshot(0x2)], 3])\n",
+    "from inline_snapshot import snapshot\n\n\ndef test_a():\n    assert [5] == snapshot([{'k': snapshot(0b11)}])\n    assert 16 == snapshot(0x10)\n",
+    "from inline_snapshot import snapshot\n\n\ndef test_a():\n    assert (1, 'x') == snapshot((1, [snapshot(0o7)]))\n",
+]
+
+
+def run_corpus_orders(src):
+    out = {}
+    for name, seq in (("together", [("fix", "update")]), ("fix_update", [("fix",), ("update",)]), ("update_fix", [("update",), ("fix",)])):
+        cur = src.encode()
+        for fl in seq:
+            r = driver.run_inproc({"test_a.py": cur}, fl, block_black=True)
+            if r["session_exc"]:
+                return {"error": f"{name}: {r['session_exc']}"}
+            cur = r["files"]["test_a.py"]
+        try:
+            out[name] = norm_ast(cur.decode())
+        except SyntaxError as e:
+            return {"error": f"{name}: invalid file {e}"}
+        out[name + "_src"] = cur.decode()
+    return out
+
+
 # ----------------------------------------------------------------------------- D: real sessions over several files
+# every file has a create; fix, trim and update each touch exactly one (different) file: whatever order the session registers the files in,
+# at most one of the three later categories has its file last
 SESSION_FILES = {
-    "test_a.py": "from inline_snapshot import snapshot\nR = []\n\n\ndef test_a1():\n    R.append(5 <= snapshot(8))\n\n\ndef test_a2():\n    R.append(3 == snapshot(4))\n",
-    "test_b.py": "from inline_snapshot import snapshot\nR = []\n\n\ndef test_b1():\n    R.append(7 == snapshot(6))\n\n\ndef test_b2():\n    R.append('x' == snapshot('''x'''))\n",
-    "test_c.py": "from inline_snapshot import snapshot\nR = []\n\n\ndef test_c1():\n    R.append(1 in snapshot([1, 2]))\n    R.append(9 == snapshot())\n",
+    "test_a.py": "from inline_snapshot import snapshot\nR = []\n\n\ndef test_a1():\n    R.append(1 == snapshot())\n\n\ndef test_a2():\n    R.append(3 == snapshot(4))\n",
+    "test_b.py": "from inline_snapshot import snapshot\nR = []\n\n\ndef test_b1():\n    R.append(2 == snapshot())\n\n\ndef test_b2():\n    R.append(5 <= snapshot(8))\n",
+    "test_c.py": "from inline_snapshot import snapshot\nR = []\n\n\ndef test_c1():\n    R.append(9 == snapshot())\n\n\ndef test_c2():\n    R.append('x' == snapshot('''x'''))\n",
 }
 
 
@@ -274,6 +302,13 @@ def run(ctx: Ctx):
             ctx.report(f"C09 oracle: nested snapshot {ta.render_tree(c['tree'])} observed {c['new']!r}: fix,update together / fix then update / update then fix give different programs: "
                        f"{o['together_src'][-80:]!r} / {o['fix_update_src'][-80:]!r} / {o['update_fix_src'][-80:]!r}", {"kind": "tree", "tree": c["tree"], "new_repr": repr(c["new"])})
     ctx.coverage["oracle"]["nested_snapshots_three_orders"] = nt
+    for src, o in zip(NESTED_CORPUS, pmap(run_corpus_orders, NESTED_CORPUS)):
+        ctx.count(("nested-corpus", src), True)
+        if "error" in o:
+            ctx.report("C09 (inner snapshot inside a replaced element): " + o["error"], {"kind": "nested-corpus", "source": src})
+        elif not (o["together"] == o["fix_update"] == o["update_fix"]):
+            ctx.report(f"C09 oracle: inner snapshot inside a replaced element: fix,update together / fix then update / update then fix give different programs: "
+                       f"{o['together_src'][-90:]!r} / {o['fix_update_src'][-90:]!r} / {o['update_fix_src'][-90:]!r}", {"kind": "nested-corpus", "source": src})
     # C2: constructor calls (positional and keyword arguments, keywords holding defaults): the three routes, and Model/CallAssign.v
     from .. import callassign as ca
     ca.check_orders(ctx, 150 if not ctx.thorough else 2000)
@@ -323,6 +358,10 @@ def replay(ctx: Ctx, data):
     if c.get("kind") in ("dict", "dict-orders"):
         from .. import dictassign as da
         return da.replay_case(c)
+    if c.get("kind") == "nested-corpus":
+        o = run_corpus_orders(c["source"])
+        print(o)
+        return "error" not in o and o["together"] == o["fix_update"] == o["update_fix"]
     if c.get("kind") == "sessions-imports":
         si = run_session_orders(None, IMPORT_FILES, ("create", "fix"), 2)
         return "error" not in si["together"] and all("error" not in r and r == si["together"] for _, r in si["orders"])
